@@ -123,6 +123,27 @@ def corruptions(g, rng):
     p = clone()
     p.step(last.name).fields["enabled"] = Expr(In("tag"))
     yield "illtyped-enabled-string", p
+    # the other stage inputs that may be left out: a value given for them is checked like any other
+    for kind, field, val in (("closure-timeout-text", "closure_wait_timeout", "soon"), ("closure-timeout-string-expr", "closure_wait_timeout", Expr(In("tag"))),
+                             ("enabled-list", "enabled", ["a"]), ("deploy-unknown-field", "deploy", {"deployer_name": "scripted", "nosuchfield": 1}),
+                             ("deploy-tag-object-expr", "deploy", {"deployer_name": "scripted", "tag": Expr(Ref(first.name, "outputs", "success"))})):
+        if last is first and "object-expr" in kind:
+            continue
+        p = clone()
+        p.step(last.name).fields[field] = val
+        yield "illtyped-" + kind, p
+    for s_ in prog.steps:
+        if s_.kind == "foreach":
+            for kind, val in (("parallelism-text", "many"), ("parallelism-string-expr", Expr(In("tag")))):
+                p = clone()
+                p.step(s_.name).fields["parallelism"] = val
+                yield "illtyped-" + kind, p
+            break
+    # a list literal in an output whose later items have another type than the first
+    if last is not first:
+        p = clone()
+        p.outputs["extra"] = {"v": [gen.tagref(first.name), "a constant", Expr(Ref(last.name, "outputs", "success"))]}
+        yield "illtyped-output-list-mixed", p
     p = clone()
     p.step(last.name).step = "nosuchpluginstep"
     yield "wrong-step", p
